@@ -7,7 +7,7 @@
 // yield / boost-yield / suspension; the records are printed for the monitors (REC lines) and as a
 // trace (IN PL) that the extracted model replays as an acceptor.
 //
-// usage: c10_place <seed> <case> <mode: rand|e6|yieldto|boost> <njobs>
+// usage: c10_place <seed> <case> <mode: rand|e6|yieldto|boost|sphint|firstsusp> <njobs>
 #include <pika/condition_variable.hpp>
 #include <pika/execution.hpp>
 #include <pika/init.hpp>
@@ -15,6 +15,7 @@
 #include <pika/mutex.hpp>
 #include <pika/semaphore.hpp>
 #include <pika/thread.hpp>
+#include <pika/threading_base/thread_data.hpp>
 
 #include <atomic>
 #include <chrono>
@@ -174,6 +175,32 @@ static std::deque<Slot> slots(MAXS);
 static std::atomic<int> nslot{0};
 static pika::mutex g_contended;
 static std::atomic<bool> stop_wakers{false};
+
+// firstsusp: hook 205 (condition_variable::wait: waiter enqueued, internal lock released, before
+// suspend) keeps the waiter ACTIVE for a few microseconds after it became visible to the wakers, so that
+// the unlocking task finds it active and the wake-up goes through the retry helper (set_active_state)
+static std::atomic<std::uint64_t> g_hook_ctr{0};
+// hook 1001 (set_active_state: the helper has just read the target's last worker for the hint) waits,
+// bounded, until the target has left the active state: the retry that follows then finds it suspended
+// and queues it with the hint that was read while it was still running its phase.
+static void firstsusp_hook(int site, void const* obj, std::uint64_t, std::uint64_t)
+{
+    if (site == 1001)
+    {
+        auto const* td = static_cast<pika::threads::detail::thread_data const*>(obj);
+        auto t0 = std::chrono::steady_clock::now();
+        while (td->get_state().state() == pika::threads::detail::thread_schedule_state::active &&
+            std::chrono::steady_clock::now() - t0 < std::chrono::microseconds(300))
+        {
+        }
+        return;
+    }
+    if (site != 205) return;
+    std::uint64_t k = g_hook_ctr.fetch_add(1, std::memory_order_relaxed);
+    auto d = std::chrono::nanoseconds(2000 + (k * 2654435761u) % 12000);
+    auto t0 = std::chrono::steady_clock::now();
+    while (std::chrono::steady_clock::now() - t0 < d) {}
+}
 
 static ex::thread_pool_scheduler sched_of(int uid)
 {
@@ -567,6 +594,9 @@ int main(int argc, char** argv)
             hp = 2;
         }
     }
+    // firstsusp: the default pool only supplies contenders; shared-priority (outside the anchored code)
+    // crashed sporadically here (SIGSEGV in about 1 of 15 runs of `1 20 firstsusp 400`), so it is not drawn
+    if (g_mode == "firstsusp" && defpol == "shared-priority") defpol = "local-priority-fifo";
     g_pools[0].policy = defpol;
     int total = 0;
     for (auto& p : g_pools)
@@ -709,6 +739,40 @@ int main(int argc, char** argv)
             finished.fetch_add(1);
         });
         rec('R', ub);
+        ok = wait_all(30);
+    }
+    else if (g_mode == "firstsusp")
+    {
+        // wake-up of a task whose FIRST phase ends in a suspension: many tasks (3 of 4 hinted, most on the
+        // static pool A) whose very first action is to lock the contended pika::mutex, submitted by two OS
+        // threads; the unlocking tasks are the wakers (do_resume, and the "set state for active thread"
+        // helper whenever the waiter it pops has enqueued itself but is not suspended yet).  A wake-up
+        // that is queued with anything but the worker of the first phase moves a task of a static pool.
+        pika::verif::hook.store(&firstsusp_hook, std::memory_order_release);
+        auto sub = [&](int ext, int n) {
+            Rng rr(seed * 7919u + std::uint64_t(caseno) * 31u + std::uint64_t(ext));
+            for (int i = 0; i < n; ++i)
+            {
+                int u = nuid.fetch_add(1);
+                if (u >= MAXT) std::abort();
+                TaskInfo& t = info[u];
+                t.pool = rr.below(6) == 0 ? 0 : 1;
+                t.prio = 'n';
+                t.hinted = rr.below(4) != 0;
+                t.hint = rr.below(g_pools[t.pool].W);
+                t.ctxkind = 0;
+                t.ctxid = ext;
+                t.jobkind = 'e';
+                t.prog = "m";
+                if (rr.below(2)) t.prog += "y";
+                if (rr.below(3) == 0) t.prog += "m";
+                expected.fetch_add(1);
+                submit_execute(u);
+            }
+        };
+        std::thread t0(sub, 0, njobs / 2), t1(sub, 1, njobs - njobs / 2);
+        t0.join();
+        t1.join();
         ok = wait_all(30);
     }
     else if (g_mode == "sphint")
